@@ -134,6 +134,7 @@ func checkHistory(c *rt.CaseResult, ops []conc.Op, evs []conc.Event, p program, 
 
 func c06Hist(tier string, seed int64, idx int, scratch string) rt.CaseResult {
 	var c rt.CaseResult
+	rt.SetWatchdogLimit(25 * time.Second)
 	rng := seqrun.Rng(seed, "C06", idx)
 	withTx := idx%2 == 1
 	clients := 3
@@ -160,6 +161,7 @@ func c06Hist(tier string, seed int64, idx int, scratch string) rt.CaseResult {
 	ops := execProgram(env, tr, p, nil)
 	conc.Uninstall()
 	evs := tr.Events()
+	reopenDiff := reopenCheck(env, p.Keys)
 	cerr := env.Close()
 	c.Evals = int64(len(ops))
 	for _, pr := range overlapPairs(ops) {
@@ -171,6 +173,10 @@ func c06Hist(tier string, seed int64, idx int, scratch string) rt.CaseResult {
 	}
 	replay := map[string]any{"seed": seed, "case": idx, "program": p, "with_tx": withTx}
 	checkHistory(&c, ops, evs, p, withTx, replay)
+	if reopenDiff != "" && len(c.Violations) == 0 {
+		replay["history"] = ops
+		c.Violate("state-changed-by-reopen-after-concurrent-run", reopenDiff, replay)
+	}
 	if cerr != nil {
 		c.Violate("close-failed", cerr.Error(), replay)
 	}
@@ -187,9 +193,41 @@ func c06Hist(tier string, seed int64, idx int, scratch string) rt.CaseResult {
 	return c
 }
 
+// reopenCheck reads every key and the key list, closes and reopens the database and reads
+// again: after a quiescent point a restart must not change anything (an acknowledged write
+// that is lost or resurrected by recovery shows up here).
+func reopenCheck(env *dbx.Env, keys []string) string {
+	read := func() map[string]string {
+		out := map[string]string{}
+		for _, k := range keys {
+			b, err := env.DB.Get(ctxBg, k)
+			if err != nil {
+				out[k] = "<" + string(seqrun.Class(err)) + ">"
+			} else {
+				out[k] = string(b)
+			}
+		}
+		ks, err := env.DB.GetKeys(ctxBg)
+		out["\x00keys"] = fmt.Sprint(ks, err)
+		return out
+	}
+	before := read()
+	if err := env.Reopen(); err != nil {
+		return "reopen failed: " + err.Error()
+	}
+	after := read()
+	for k, v := range before {
+		if after[k] != v {
+			return fmt.Sprintf("after the concurrent run key %q reads %s; after Close and Open it reads %s", k, seqrun.Describe([]byte(v)), seqrun.Describe([]byte(after[k])))
+		}
+	}
+	return ""
+}
+
 // c06Window steers the named windows.
 func c06Window(tier string, seed int64, idx int, scratch string) rt.CaseResult {
 	var c rt.CaseResult
+	rt.SetWatchdogLimit(25 * time.Second)
 	env, err := dbx.Open(dbx.Options{Mode: dbx.Inline, Dir: filepath.Join(scratch, "db")})
 	if err != nil {
 		c.Violate("open-failed", err.Error(), nil)
@@ -199,6 +237,9 @@ func c06Window(tier string, seed int64, idx int, scratch string) rt.CaseResult {
 	tr := conc.NewTracer(true)
 	tr.Install()
 	defer conc.Uninstall()
+	if idx%3 == 2 {
+		return c06StoreWindow(seed, idx, env, tr)
+	}
 	window := []string{"get.lookup<overwrite+collect<get.open", "getkeys.files<overwrite+collect<content-record-lookup"}[idx%2]
 	tag := fmt.Sprintf("w%d-", idx)
 	p := program{Keys: []string{"k", "other"}, Init: []progOp{{Kind: "set", Tx: -1, Key: "k", Tag: tag + "v0", Len: 30}, {Kind: "set", Tx: -1, Key: "other", Tag: tag + "o", Len: 10}}}
@@ -228,6 +269,39 @@ func c06Window(tier string, seed int64, idx int, scratch string) rt.CaseResult {
 	checkHistory(&c, ops, tr.Events(), p, false, replay)
 	if idx < 2 {
 		c.Sample = map[string]any{"window": window, "gate_outcome": out}
+	}
+	return c
+}
+
+// c06StoreWindow: writer A is parked right after drawing its sequence number until another
+// writer of the same key has persisted its version. On a tree where the sequence is drawn
+// inside the store's critical section the second writer cannot get there (gate times out:
+// order not reachable); otherwise publication order and sequence order disagree.
+func c06StoreWindow(seed int64, idx int, env *dbx.Env, tr *conc.Tracer) rt.CaseResult {
+	var c rt.CaseResult
+	window := "A.seq-drawn<B.persisted<A.persisted (same key)"
+	tag := fmt.Sprintf("s%d-", idx)
+	p := program{Keys: []string{"k"}, Init: []progOp{{Kind: "set", Tx: -1, Key: "k", Tag: tag + "v0", Len: 20}}}
+	a := []progOp{{Kind: "set", Tx: -1, Key: "k", Tag: tag + "A", Len: 20}}
+	b := []progOp{{Kind: "sleep", Len: 3000}, {Kind: "set", Tx: -1, Key: "k", Tag: tag + "B", Len: 20}}
+	t := []progOp{{Kind: "begin", Tx: 0, Level: 1}, {Kind: "sleep", Len: 8000}, {Kind: "set", Tx: 0, Key: "k", Tag: tag + "C", Len: 20}, {Kind: "sleep", Len: 400000}, {Kind: "get", Tx: 0, Key: "k"}, {Kind: "get", Tx: -1, Key: "k"}, {Kind: "commit", Tx: 0}}
+	p.Clients = [][]progOp{a, b, t}
+	var gate *conc.Gate
+	ops := execProgram(env, tr, p, func(client int, gid int64) {
+		if client == 0 {
+			gate = tr.AddGate(&conc.Gate{WaitPoint: "core.store.seq", WaitG: gid, SigPoint: "core.store.persisted", NotSigG: gid, Timeout: 100 * time.Millisecond})
+		}
+	})
+	out := gate.Outcome()
+	c.Evals = int64(len(ops))
+	c.AddDistinct("window:" + window + "/" + out)
+	c.Observe("window outcomes", window+" -> "+out)
+	c.Count("window_attempts", 1)
+	replay := map[string]any{"seed": seed, "case": idx, "window": window, "gate": out, "program": p}
+	checkHistory(&c, ops, tr.Events(), p, true, replay)
+	if d := reopenCheck(env, p.Keys); d != "" && len(c.Violations) == 0 {
+		replay["history"] = ops
+		c.Violate("state-changed-by-reopen-after-concurrent-run", d, replay)
 	}
 	return c
 }
